@@ -162,7 +162,7 @@ def run_fuzz_stage(pid, stage, tier, seed, known_sigs, only=None):
             body = f.read()
         res.failures.append({"sig": sig, "msg": ck.crash_excerpt(text), "replay_text": body, "ext": stage.get("replay_ext", "fuzz"),
                              "stage": stage["name"], "crash": True})
-    if res.evaluations == 0:
+    if res.evaluations == 0 and not res.failures:
         res.infra_errors.append("fuzz stage %s executed nothing" % stage["name"])
     return res
 
